@@ -12,7 +12,8 @@
    [wf nq nc c]: indices in range; Reset has one qubit and no clbit; Measure one qubit, one clbit. *)
 From CKT Require Import Common.Base Common.Circ Common.Herbrand Model.ResetPasses
   Proofs.ResetPassesP Proofs.ResetPassesSem Proofs.ResetPassesDag Proofs.ResetPassesDropped Proofs.ResetPassesSite.
-From CKT Require Import Common.QSim Model.ResetSim Proofs.ResetSimP Proofs.ResetSimQ.
+From CKT Require Import Common.QSim Model.ResetSim Proofs.ResetSimP Proofs.ResetSimQ Proofs.ResetSimLaws Proofs.ResetPassesMore Proofs.ResetSimFinal.
+From Coq Require Import Permutation.
 
 (* ------------------------------------------------------------------------------------------------
    (1) every pass deletes only Reset instructions; all other instructions stay, in order *)
@@ -94,6 +95,20 @@ Theorem c12_pipeline_semantics : forall nq nc c, wf nq nc c = true ->
     wire (denote nq nc (optimise_resets nq c)) q = wire (denote nq nc c) q.
 Proof. exact pipeline_semantics. Qed.
 
+(* the pipeline's exception set, stated on the INPUT circuit: only wires q < nq whose last instruction in c is a
+   reset, which c itself leaves in |0> *)
+Theorem c12_pipeline_dropped : forall nq nc c q, wf nq nc c = true ->
+  In q (final_dropped nq (remove_resets_in_zero_state nq c)) ->
+  q < nq /\ ends_in_reset q c = true /\ wire (denote nq nc c) q = Zero.
+Proof. exact pipeline_dropped. Qed.
+
+(* final-reset removal as a statement WITHOUT an exception set: putting the dropped resets back at the very end
+   gives the whole denotation of c (every classical bit, every wire).  "The pass only moves resets of wires that
+   are never used again to the end, and then omits them." *)
+Theorem c12_final_reappend : forall nq nc c, wf nq nc c = true ->
+  denote nq nc (remove_final_resets nq c ++ map (fun q => mkI Reset [q] []) (final_dropped nq c)) = denote nq nc c.
+Proof. exact final_reappend. Qed.
+
 (* one run of RemoveFinalReset (at most one reset per wire) *)
 Theorem c12_dag_rfr_semantics : forall nq nc c, wf nq nc c = true ->
   hc (denote nq nc (dag_remove_final_reset nq c)) = hc (denote nq nc c) /\
@@ -145,7 +160,9 @@ Theorem c12_site_only_resets : forall nq ph pre m,
   del_resets (pre ++ [m]) (subexperiment_resets nq ph (pre ++ [m])).
 Proof. exact subexperiment_resets_only_resets. Qed.
 
-Theorem c12_site_semantics_observed : forall nq nc c, wf nq nc c = true ->
+(* definitional: [subexperiment_resets nq false c] unfolds to [optimise_resets nq c]; this is
+   c12_pipeline_semantics restated for the non-placeholder call site, no new content *)
+Theorem c12_site_observed_def : forall nq nc c, wf nq nc c = true ->
   hc (denote nq nc (subexperiment_resets nq false c)) = hc (denote nq nc c) /\
   forall q, ~ In q (final_dropped nq (remove_resets_in_zero_state nq c)) ->
     wire (denote nq nc (subexperiment_resets nq false c)) q = wire (denote nq nc c) q.
@@ -163,30 +180,81 @@ Proof. exact site_semantics_placeholder. Qed.
 
 (* ------------------------------------------------------------------------------------------------
    (5) NOT through the Herbrand denotation (no appeal to assumption M1): the two state-by-state passes in a
-   concrete semantics, the exact state-vector branch simulation of Model/ResetSim.v over Common/QSim.v
-   (gates x y z h s sdg sx sxdg cx cz swap ccx under any assignment [gi] of gate ids, measurements, resets,
-   barriers; any number of qubits).  [qbrun gi nq nc c] = the list of (classical register, unnormalised
-   state vector) branches of weight > 0 in program order: equal lists = the same joint law of all classical
-   bits together with the same conditional state of ALL qubits. *)
-Theorem c12_sim_consolidate : forall gi nq nc c, wf nq nc c = true ->
+   concrete semantics, the exact state-vector branch simulation of Model/ResetSim.v over Common/QSim.v.
+   [qbrun gi nq nc c] = the list of (classical register, unnormalised state vector) branches of weight > 0
+   in program order: equal lists = the same joint law of all classical bits together with the same
+   conditional state of ALL qubits.
+   Domain = the property's quantifier, and only that:
+     [simple c]          every instruction is a gate, a measurement, a reset or a barrier
+                         ([bstep] treats Move / QPD placeholders / CutWire as the identity, which is NOT their
+                         meaning: [H0; Move 0 1; M 1 0] would get weight 1 on outcome 0 instead of 1/2, 1/2 -
+                         see c12_ex_sim_domain; without [simple] the equalities hold for the wrong reason)
+     [interpreted gi c]  every gate id is mapped by [gi] to a QSim gate (x y z h s sdg sx sxdg cx cz swap ccx)
+                         of the right arity (otherwise it would silently act as the identity). *)
+Theorem c12_sim_consolidate : forall gi nq nc c,
+  wf nq nc c = true -> simple c = true -> interpreted gi c = true ->
   qbrun gi nq nc (consolidate_resets nq c) = qbrun gi nq nc c.
-Proof. exact q_consolidate. Qed.
+Proof. exact q_consolidate_dom. Qed.
 
 (* ... from any starting list of branches (any registers, any vectors of any length) *)
-Theorem c12_sim_consolidate_any : forall gi nq nc c l, wf nq nc c = true ->
+Theorem c12_sim_consolidate_any : forall gi nq nc c l,
+  wf nq nc c = true -> simple c = true -> interpreted gi c = true ->
   clean vec_is_zero (brun (qgapply gi) qproj qflipx (consolidate_resets nq c) l)
   = clean vec_is_zero (brun (qgapply gi) qproj qflipx c l).
-Proof. exact q_consolidate_any. Qed.
+Proof. exact q_consolidate_any_dom. Qed.
 
-Theorem c12_sim_zero : forall gi nq nc c, wf nq nc c = true ->
+Theorem c12_sim_zero : forall gi nq nc c,
+  wf nq nc c = true -> simple c = true -> interpreted gi c = true ->
   qbrun gi nq nc (remove_resets_in_zero_state nq c) = qbrun gi nq nc c.
-Proof. exact q_zero. Qed.
+Proof. exact q_zero_dom. Qed.
 
-(* hence the Born law (register, squared norm) branch by branch *)
-Theorem c12_sim_born_law : forall gi nq nc c, wf nq nc c = true ->
+(* corollary only (a rewrite of the two theorems above under [qlaw] = map): the per-branch Born weights *)
+Theorem c12_sim_born_law_cor : forall gi nq nc c,
+  wf nq nc c = true -> simple c = true -> interpreted gi c = true ->
   qlaw (qbrun gi nq nc (consolidate_resets nq c)) = qlaw (qbrun gi nq nc c) /\
   qlaw (qbrun gi nq nc (remove_resets_in_zero_state nq c)) = qlaw (qbrun gi nq nc c).
-Proof. intros gi nq nc c W. now rewrite (q_consolidate gi nq nc c W), (q_zero gi nq nc c W). Qed.
+Proof. exact q_born_law_cor. Qed.
+
+(* the same two passes in ANY branch semantics (any state space, any gate set - in particular rotation gates,
+   which QSim does not have) whose operations satisfy the ten laws [reset_laws] (Model/ResetSim.v): resetting a
+   |0> qubit is the identity up to a weight-0 branch, a reset leaves its qubit |0>, operations on other qubits
+   keep a qubit |0>, weight-0 branches stay weight-0.  The laws are hypotheses here (kind: physics of the
+   interpretation); c12_sim_qsim_laws discharges them for the exact simulator. *)
+Theorem c12_sim_laws_consolidate :
+  forall (state : Type) apply proj flipx szero (Zq : nat -> state -> Prop),
+  reset_laws apply proj flipx szero Zq ->
+  forall nq nc c l, wf nq nc c = true -> simple c = true ->
+  clean szero (brun apply proj flipx (consolidate_resets nq c) l) = clean szero (brun apply proj flipx c l).
+Proof. exact laws_consolidate. Qed.
+
+Theorem c12_sim_laws_zero :
+  forall (state : Type) apply proj flipx szero (Zq : nat -> state -> Prop),
+  reset_laws apply proj flipx szero Zq ->
+  forall nq nc c k s0, wf nq nc c = true -> simple c = true -> (forall q, Zq q s0) ->
+  clean szero (brun apply proj flipx (remove_resets_in_zero_state nq c) [(k, s0)])
+  = clean szero (brun apply proj flipx c [(k, s0)]).
+Proof. exact laws_zero. Qed.
+
+(* _remove_final_resets, the one pass that changes a quantum state, in ANY branch semantics whose operations on
+   different qubits commute ([commute_laws], Model/ResetSim.v: the two halves of a reset - project, flip back -
+   commute with gates, projections and flips on other qubits).  Up to the ORDER of the branches, c has the
+   branches of  (remove_final_resets nq c)  followed by the removed resets ([final_removed], all on wires in
+   [final_dropped]): the pass only omits local reset channels at the very end of wires that are never used
+   again.  No Herbrand terms.  The five laws are hypotheses (kind: physics of the interpretation); they are
+   NOT discharged for QSim here: QSim's [qflipx] re-normalises rationals (Qred), so on arbitrary (non-canonical,
+   non-power-of-two-length) vectors the laws hold only up to Qeq / under a validity invariant, not as the
+   syntactic equalities stated.  For the exact simulator the final-reset, pipeline, call-site and DAG-pass
+   theorems therefore still reach statistics through M1 only. *)
+Theorem c12_sim_laws_final :
+  forall (state : Type) apply proj flipx, @commute_laws state apply proj flipx ->
+  forall nq nc c (l : list (branch state)), wf nq nc c = true -> simple c = true ->
+  Permutation (brun apply proj flipx c l)
+              (brun apply proj flipx (remove_final_resets nq c ++ final_removed nq c) l).
+Proof. exact laws_final. Qed.
+
+Theorem c12_sim_qsim_laws : forall gi,
+  reset_laws (qgapply gi) qproj qflipx vec_is_zero qZ /\ forall nq q, qZ q (init_vec nq).
+Proof. intros gi. split; [apply qsim_laws|exact init_vec_qZ]. Qed.
 
 (* ------------------------------------------------------------------------------------------------
    non-vacuity: 2 qubits / 1 clbit; h = Gate 0, cx = Gate 1.
@@ -270,32 +338,59 @@ Example c12_ex_sim :
   consolidate_resets 2 ex1 <> ex1 /\ remove_resets_in_zero_state 2 ex1 <> ex1.
 Proof. repeat split; try (vm_compute; reflexivity); vm_compute; discriminate. Qed.
 
+(* the hypotheses of the concrete theorems hold on ex1; and why [simple] is required: on a Move the
+   branch semantics is not the meaning of the circuit (weight 1 on outcome 0; physically 1/2, 1/2) *)
+Example c12_ex_sim_domain :
+  simple ex1 = true /\ interpreted gi_ex ex1 = true /\
+  wf 2 1 [H0; mkI Move [0; 1] []; M 1 0] = true /\ simple [H0; mkI Move [0; 1] []; M 1 0] = false /\
+  map fst (qlaw (qbrun gi_ex 2 1 [H0; mkI Move [0; 1] []; M 1 0])) = [[false]] /\
+  interpreted gi_ex [mkI (Gate 7) [0] []] = false /\ interpreted gi_ex [mkI (Gate 1) [0] []] = false.
+Proof. repeat split; vm_compute; reflexivity. Qed.
+
+(* the removed instructions of ex1 in program order; the commutation laws are consistent (one-point state
+   space - only a consistency witness, no physical instance is proved) *)
+Example c12_ex_final_removed :
+  final_removed 2 ex1 = [R 0; R 1; R 1] /\
+  commute_laws (fun (_ : nat) (_ : list nat) (s : unit) => s) (fun s _ _ => s) (fun s _ => s).
+Proof. split; [reflexivity|exact commute_laws_unit]. Qed.
+
+(* the pipeline's exception set and the re-appended form on ex1 *)
+Example c12_ex_pipeline_dropped :
+  final_dropped 2 (remove_resets_in_zero_state 2 ex1) = [1; 1; 0] /\
+  ends_in_reset 0 ex1 = true /\ ends_in_reset 1 ex1 = true /\
+  remove_final_resets 2 ex1 ++ map (fun q => mkI Reset [q] []) (final_dropped 2 ex1)
+    = [R 0; R 1; H0; R 1; CX 0 1; R 0; R 0; M 1 0; B [0]; R 1; R 1; R 0] /\
+  remove_final_resets 2 ex1 ++ map (fun q => mkI Reset [q] []) (final_dropped 2 ex1) <> ex1.
+Proof. repeat split; try reflexivity. vm_compute. discriminate. Qed.
+
 (* ------------------------------------------------------------------------------------------------
-   facts regenerated from the source on every run *)
+   FACT OBLIGATIONS (not theorems about the code's behaviour): constants regenerated from the source on every
+   run must equal what the model assumes; they pin the call sites/order, the scan direction and the DAG
+   methods used, NOT the flags or the early exits *)
 From CKT Require Import Extracted.Facts.
 From Coq Require Import String.
 Open Scope string_scope.
 
 (* the order modelled by [optimise_resets] *)
-Theorem c12_facts_pipeline :
+Theorem c12_facts_pipeline_obligation :
   reset_pipeline_order = ["_remove_resets_in_zero_state"; "_remove_final_resets"; "_consolidate_resets"].
 Proof. reflexivity. Qed.
 
 (* [reversed scan?; #del; #loops] of the three list passes, as modelled (the early-exit breaks are
    modelled too but not pinned: they are pure optimisations) *)
-Theorem c12_facts_scans :
+Theorem c12_facts_scans_obligation :
   reset_scan_shapes = [("_consolidate_resets", [0; 1; 3]); ("_remove_resets_in_zero_state", [0; 1; 3]);
                        ("_remove_final_resets", [1; 1; 3])].
 Proof. reflexivity. Qed.
 
 (* every call of a reset pass in generate_cutting_experiments, as modelled by [subexperiment_resets] *)
-Theorem c12_facts_sites :
+Theorem c12_facts_sites_obligation :
   reset_call_sites = [("_remove_final_resets", "guarded"); ("_remove_resets_in_zero_state", "loop");
                       ("_remove_final_resets", "loop"); ("_consolidate_resets", "loop")].
 Proof. reflexivity. Qed.
 
 (* the DAG operations the wire-level models stand for *)
-Theorem c12_facts_dag :
+Theorem c12_facts_dag_obligation :
   reset_dag_calls = [("RemoveFinalReset", "output_map,predecessors,remove_op_node");
                      ("ConsolidateResets", "op_nodes,remove_op_node,successors")].
 Proof. reflexivity. Qed.
@@ -327,11 +422,17 @@ Print Assumptions c12_dag_equiv_consolidate_rest.
 Print Assumptions c12_sim_consolidate.
 Print Assumptions c12_sim_consolidate_any.
 Print Assumptions c12_sim_zero.
-Print Assumptions c12_sim_born_law.
+Print Assumptions c12_sim_born_law_cor.
+Print Assumptions c12_sim_laws_consolidate.
+Print Assumptions c12_sim_laws_zero.
+Print Assumptions c12_sim_qsim_laws.
+Print Assumptions c12_sim_laws_final.
+Print Assumptions c12_pipeline_dropped.
+Print Assumptions c12_final_reappend.
 Print Assumptions c12_site_only_resets.
-Print Assumptions c12_site_semantics_observed.
+Print Assumptions c12_site_observed_def.
 Print Assumptions c12_site_semantics_placeholder.
-Print Assumptions c12_facts_pipeline.
-Print Assumptions c12_facts_sites.
-Print Assumptions c12_facts_scans.
-Print Assumptions c12_facts_dag.
+Print Assumptions c12_facts_pipeline_obligation.
+Print Assumptions c12_facts_sites_obligation.
+Print Assumptions c12_facts_scans_obligation.
+Print Assumptions c12_facts_dag_obligation.
